@@ -206,6 +206,16 @@ def run_audit(unordered_ok=None, persistent_ok=None):
                                 inventory["persistent_writes"].append({"where": where, "what": ast.unparse(t)})
                                 items.append(("persistent[%s:%s.%s]" % (where, base, t.attr), False,
                                               "state is stored on a module-level function / class object and outlives the call", "line %d" % n.lineno))
+            # 5b. memoisation: a cache decorator makes a call's result depend on earlier calls unless the function is pure AND returns a value
+            # nobody mutates; neither is decidable by rule, so a memoised function is an open obligation
+            if isinstance(fn, ast.FunctionDef):
+                for dec in fn.decorator_list:
+                    dtxt = ast.unparse(dec.func if isinstance(dec, ast.Call) else dec)
+                    if dtxt.split(".")[-1] in ("lru_cache", "cache", "cached_property", "memoize", "memoise"):
+                        inventory["persistent_writes"].append({"where": where, "what": "@" + ast.unparse(dec)[:60]})
+                        items.append(("persistent[%s:@%s]" % (where, dtxt.split(".")[-1]), False,
+                                      "a memoised function keeps its results across calls (state that outlives the call; a mutable result is shared with every later caller)",
+                                      "line %d" % fn.lineno))
             # 6. mutable default arguments that are mutated
             if isinstance(fn, ast.FunctionDef):
                 for a, d in zip(reversed(fn.args.args), reversed(fn.args.defaults)):
